@@ -246,6 +246,7 @@ type Loc struct {
 	ElemT  types.Type   // type of the stored value
 	Global *ssa.Global  // LGlobal
 	Slice  *Val         // LElem
+	SliceV ssa.Value    // LElem: the SSA value of the slice (for element updates of purely local slices)
 	Idx    string       // LElem
 	Buf    *bufRef      // LBufElem
 	Ms     *mslice      // LMutElem
